@@ -5,6 +5,6 @@ CONSTANTS
   Fams = {"pos", "vars", "tabfn", "tabmain", "redir", "sub", "ns"}
   LB = 2
   LM = 2
-  Wide = {"ns"}
+  Wide = {"ns", "tabmain"}
   Stepwise = FALSE
 INVARIANT Emit
